@@ -203,7 +203,7 @@ Proof.
   assert (Ha : 0 <= Z.log2 (f * d)) by apply Z.log2_nonneg.
   assert (Hlm : 0 <= Z.log2 (Z.max n 1)) by apply Z.log2_nonneg.
   assert (E : Z.of_nat (fuel1 (Z.to_nat (i0 - 1)) a lm) <= Z.pos (fe_fuel f n d)).
-  { rewrite fuel1_eq. unfold fe_fuel. fold i0.
+  { rewrite fuel1_eq. unfold fe_fuel. rewrite (Z.abs_eq n), (Z.abs_eq d) by lia. fold i0.
     set (A := Z.log2 (f * d) + 1) in *. set (L := Z.log2 (Z.max n 1) + 1) in *.
     assert (0 < i0 + A + i0 * L + 2) by nia.
     rewrite Z2Pos.id by assumption.
@@ -296,7 +296,7 @@ Qed.
 Lemma fe_fuel_blob n d :
   0 <= n < two64 -> 512 <= d < two64 -> Z.pos (fe_fuel 1 n d) < two63 - 1.
 Proof.
-  intros Hn Hd. unfold fe_fuel.
+  intros Hn Hd. unfold fe_fuel. rewrite (Z.abs_eq n), (Z.abs_eq d) by lia.
   assert (H1 : 0 <= 2 * n / d) by (apply Z.div_pos; lia).
   assert (H2 : 2 * n / d < 2 ^ 56).
   { apply Z.div_lt_upper_bound; [lia|]. unfold two64 in *. lia. }
